@@ -90,6 +90,8 @@ def run_one(stratum, seed, index):
         return gen.slowpair_run(seed, index)
     if stratum == "fork3":
         return gen.fork3_run(seed, index)
+    if stratum == "big":
+        return gen.big_run(seed, index)
     if stratum == "inject":
         return gen.inject_template_run(seed, index)
     if stratum == "injectall":
@@ -550,6 +552,7 @@ def quick_plan(seed, args):
         ("inject", list(range(gen.N_INJECT_TEMPLATES))),
         ("slowpairs", list(range(gen.N_SLOWPAIRS))),
         ("fork3", list(range(gen.N_FORK3))),
+        ("big", list(range(gen.N_BIG))),
         ("random", list(range(n_random))),
     ]
 
@@ -663,6 +666,7 @@ def thorough_batch(pool, seed, args, batch):
     tasks += list(chunks("inject", seed, range(gen.N_INJECT_TEMPLATES)))
     tasks += list(chunks("slowpairs", seed, range(gen.N_SLOWPAIRS), want_fp=True))
     tasks += list(chunks("fork3", seed, range(gen.N_FORK3), want_fp=True))
+    tasks += list(chunks("big", seed, range(gen.N_BIG)))
     n_all = (gen.N_INJECT_TEMPLATES // len(gen.INJECT_NTH)) * gen.INJECT_ALL_CAP
     tasks += list(chunks("injectall", seed, range(n_all), size=CHUNK * 4))
     run_tasks(pool, tasks, batch, max_violating_chunks=60)
